@@ -206,13 +206,12 @@ struct C13 : Harness {
                 else {
                     int got, want; size_t psize = 0, wantp = 0;
                     if (kind_is_ctr(kind)) {
-                        const void *vt = ((Skinny128CTR_t *)obj)->vtable;
+                        const void *vt = handle_vtable(kind, obj);
                         got = kind == C128 ? (vt == api.vt_s128_ctr_vec256 ? 256 : vt == api.vt_s128_ctr_vec128 ? 128 : 0)
                             : kind == C64 ? (vt == api.vt_s64_ctr_vec128 ? 128 : 0) : (vt == api.vt_m_ctr_vec128 ? 128 : 0);
                     } else {
-                        Skinny128ParallelECB_t *e = (Skinny128ParallelECB_t *)obj;
-                        psize = e->parallel_size;
-                        got = !e->vtable ? 0 : (kind == P128 && psize == 128 ? 256 : 128);
+                        psize = handle_parallel_size(kind, obj);
+                        got = !handle_vtable(kind, obj) ? 0 : (kind == P128 && psize == 128 ? 256 : 128);
                     }
                     want = (kind == C128 || kind == P128) ? (want256 ? 256 : want128 ? 128 : 0) : (want128 ? 128 : 0);
                     if (kind_is_par(kind)) {
